@@ -13,7 +13,7 @@ Section FPIL.
 
   Definition result := res (list (floc * S)).
 
-  Definition of_outcome (o : outcome (L := floc) (S := S)) : result :=
+  Definition of_outcome (o : @outcome floc S) : result :=
     match o with
     | Done m => Ok m
     | Fail e => Err e
